@@ -29,15 +29,22 @@ REQUIRED_COUNTERS = {"quick": {"ext:none": 100, "ext:some": 1000, "meek:oriented
                                "rule-alone:1": 1, "rule-alone:2": 1, "rule-alone:3": 1, "rule-alone:4": 1},
                      "thorough": {"ext:none": 1000, "ext:some": 10000, "meek:oriented-something": 1000,
                                   "rule-alone:1": 1, "rule-alone:2": 1, "rule-alone:3": 1, "rule-alone:4": 1}}
-N = {"quick": 600, "thorough": 20000}
+N = {"quick": 1500, "thorough": 150000}
+P5 = {"quick": 60000, "thorough": 0}
 
 
 def gen(tier, seed, shard, nshards):
     for c in _gc.iter_pdag_cases((1, 2, 3, 4) if tier == "quick" else (1, 2, 3, 4, 5), shard, nshards):
         yield "pdag", c
+    for code in _gc.sample_pdag5_codes(("C09", seed), P5[tier], shard, nshards):
+        yield "pdag", {"p": 5, "code": code}
+    for c in _gc.iter_pdag_cases((3, 4), shard, nshards):
+        yield "embedded-pdag", dict(c, P=9 + c["code"] % 5)
+    for k, code in enumerate(_gc.sample_pdag5_codes(("C09", seed, "emb"), P5[tier] // 6 + 2000, shard, nshards)):
+        yield "embedded-pdag", {"p": 5, "code": code, "P": 9 + code % 5}
     for k in range(N[tier]):
         if k % nshards == shard:
-            yield "sampled-pdag", {"masks": _gc.sampled_pdag(("C09", seed, "sp", k), 5 if tier == "quick" else 6, 8, max_und=9, max_edges=11)}
+            yield "sampled-pdag", {"masks": _gc.sampled_pdag(("C09", seed, "sp", k), 6, 12, max_und=9, max_edges=12)}
 
 
 def setup(rec):
@@ -69,6 +76,13 @@ def judge(family, case, rec):
     if family == "pdag":
         out = G.pdag_from_code(case["p"], case["code"])
         key = (case["p"], case["code"])
+    elif family == "embedded-pdag":
+        small = G.pdag_from_code(case["p"], case["code"])
+        if not G.directed_part_acyclic(small) or G.n_edges(small) < 2:
+            return
+        out = gmat.embed_any(small, case["P"], util.rng_for("C09e", case["p"], case["code"]), case.get("code", case.get("code3", 0)) // 2)
+        key = ("e", case["p"], case["code"])
+        rec.count("embedded:graphs")
     else:
         out = list(case["masks"])
         key = None
@@ -81,7 +95,7 @@ def judge(family, case, rec):
     und = _gc.n_undirected(out)
     rec.case(family, case, bool(und >= 1 or not ext), key=key)
     rec.count("ext:some" if ext else "ext:none")
-    P = gmat.to_np(out)
+    P = gmat.hostile_array(gmat.to_np(out), sum(out) + len(ext))
     before = P.copy()
     ctx = {"pdag": _gc.rows(out), "n_extensions": len(ext)}
 
